@@ -97,7 +97,7 @@ func matches(t *rapid.T, variant string, snap map[string][]byte, cand *Model, fi
 // recorder turns Compare's failures into a value instead of aborting.
 type recorder struct{ failed string }
 
-func (r *recorder) Helper() {}
+func (r *recorder) Helper()             {}
 func (r *recorder) Logf(string, ...any) {}
 func (r *recorder) Fatalf(f string, a ...any) {
 	if r.failed == "" {
